@@ -53,7 +53,7 @@ fn session<T: Pixel>(sh: &mut Shards, c: &Cfg, st: u8, rng: &mut Rng) {
     let mut s = String::new();
     let _ = write!(s, "\"ev\":\"c09\",\"cfg\":{},\"st\":{st},\"w\":{w},\"h\":{h},\"rgb\":", c.json());
     list(&mut s, &px, px_bits);
-    let r: Result<(), String> = (|| {
+    let r: Result<(), String> = crate::util::guard_s(|| {
         let rgb = Rgb::new(px.clone(), w, h, tc(c.tc), cp(c.cp)).map_err(|_| "ctor".to_string())?;
         let yuv = Yuv::<T>::try_from((&rgb, c.yuv_config())).map_err(|e| format!("RgbToYuv:{}", crate::frames::err_name_conv(e)))?;
         let xyb = Xyb::try_from(&yuv).map_err(|e| format!("YuvToXyb:{}", crate::frames::err_name_conv(e)))?;
@@ -74,7 +74,7 @@ fn session<T: Pixel>(sh: &mut Shards, c: &Cfg, st: u8, rng: &mut Rng) {
         }
         s.push(']');
         Ok(())
-    })();
+    });
     match r {
         Ok(()) => s.push_str(",\"res\":\"ok\""),
         Err(e) => {
@@ -119,7 +119,7 @@ fn session_indep<T: Pixel>(sh: &mut Shards, c: &Cfg, st: u8, rng: &mut Rng) {
     list(&mut s, &codes, |o, v| {
         let _ = write!(o, "[{},{},{}]", v[0], v[1], v[2]);
     });
-    let r: Result<(), String> = (|| {
+    let r: Result<(), String> = crate::util::guard_s(|| {
         let yuv = Yuv::<T>::new(crate::frames::frame_from_pixels::<T>(&codes, w, h, c.ssx, c.ssy, [(0, 0); 3]), c.yuv_config()).map_err(|e| format!("ctor:{}", crate::frames::err_name_yuv(e)))?;
         let xyb = Xyb::try_from(&yuv).map_err(|e| format!("YuvToXyb:{}", crate::frames::err_name_conv(e)))?;
         let back = Yuv::<T>::try_from((xyb, yuv.config())).map_err(|e| format!("XybToYuv:{}", crate::frames::err_name_conv(e)))?;
@@ -139,7 +139,7 @@ fn session_indep<T: Pixel>(sh: &mut Shards, c: &Cfg, st: u8, rng: &mut Rng) {
         }
         s.push(']');
         Ok(())
-    })();
+    });
     match r {
         Ok(()) => s.push_str(",\"res\":\"ok\""),
         Err(e) => {
